@@ -1001,7 +1001,8 @@ func drawECase(t *rapid.T, excluded map[string]bool) *ECase {
 	})
 	c.Faults = rapid.SliceOfN(fg, 1, 3).Draw(t, "faults")
 	// two structured shapes that random mixing rarely reaches
-	switch rapid.SampledFrom([]string{"random", "random", "random", "random", "random", "random", "delwave", "bigjournal", "readfault", "trfail"}).Draw(t, "shape") {
+	switch rapid.SampledFrom([]string{"random", "random", "random", "random", "random", "random", "delwave", "bigjournal", "readfault",
+		"random", "random", "random", "random", "random", "random", "delwave", "bigjournal", "readfault", "random", "trfail"}).Draw(t, "shape") {
 	case "trfail":
 		// a transaction with tables of its own whose Commit meets manifest failures that last
 		// through all its attempts and through the Discard that follows; then ordinary use
